@@ -100,7 +100,17 @@ def undeliverable_packet(rng):
     payload (out-of-range field), or does not know the PGN. It is consumed like any packet and must leave no trace."""
     for _ in range(5000):
         src = rng.randrange(1, 250)
-        if rng.random() < 0.6:
+        r_ = rng.random()
+        if r_ < 0.3:
+            # a complete two-frame PGN 126208 request: the generated decoder raises a bare Exception (field type not
+            # supported) when the second packet completes the message
+            body = bytes([0x00, 0x01, 0xF8, 0x01]) + bytes(rng.randrange(1, 250) for _ in range(5))
+            fr = wire.fast_frames(body, rng.randrange(8), 0xFF)
+            p = b"".join(wire.usb_frame(wire.can_id(3, 126208, src, 255), f) for f in fr)
+            if b"\xaa\x55" not in p[2:20] and b"\xaa\x55" not in p[22:] and p[19] != 0xAA and p[-1] != 0xAA:
+                return p
+            continue
+        if r_ < 0.7:
             p = wire.usb_frame(wire.can_id(2, 127250, src, 255), b"\xfd" * 8)          # heading out of range: decode raises
         else:
             p = wire.usb_frame(wire.can_id(2, 130999, src, 255), bytes(rng.randrange(256) for _ in range(8)))    # unknown PGN
